@@ -49,6 +49,9 @@ Record config := {
   awaitable_uptodate : bool;
                         (* get_source_async returns an `uptodate` that must be awaited (FileSystemLoader as found:
                            partial(self._uptodate_async, ...)); get_source always returns a plain callable *)
+  missing_raises : bool;
+                        (* the `uptodate` callable raises OSError when the source has been removed
+                           (FileSystemLoader._uptodate as found: source_path.stat() without a handler) *)
   env_g : N             (* Environment.globals: 0 = empty, otherwise an identifier of its content *)
 }.
 
@@ -64,7 +67,8 @@ Record get := {
 
 Inductive request :=
 | Get (g : get)
-| Edit (name : str) (ns : option str).    (* the source text of that store entry is replaced *)
+| Edit (name : str) (ns : option str)     (* the source text of that store entry is replaced; a deleted one is re-created *)
+| Delete (name : str) (ns : option str).  (* the source is removed (file deleted, dict key removed) *)
 
 (* the two transcription variants: the code as found (all three true) and as repaired (all false) *)
 Record variant := {
@@ -79,18 +83,27 @@ Definition as_found : variant := {| v_async_swap := true; v_globals_if := true; 
 Definition skey := (str * option str)%type.
 Definition skey_eqb (a b : skey) : bool := str_eqb (fst a) (fst b) && ostr_eqb (snd a) (snd b).
 
-Definition store := list (skey * N).
+(* an entry: (version of the text last written, is it there now).  The version counter survives a
+   deletion so that a re-created source never carries a version seen before. *)
+Definition store := list (skey * (N * bool)).
 
 Fixpoint slookup (k : skey) (st : store) : option N :=
   match st with
   | [] => None
-  | (k', v) :: r => if skey_eqb k k' then Some v else slookup k r
+  | (k', (v, present)) :: r => if skey_eqb k k' then (if present then Some v else None) else slookup k r
   end.
 
+(* writing a text: new version, present (also after a deletion) *)
 Fixpoint sedit (k : skey) (st : store) : store :=
   match st with
   | [] => []
-  | (k', v) :: r => if skey_eqb k k' then (k', N.succ v) :: r else (k', v) :: sedit k r
+  | (k', (v, present)) :: r => if skey_eqb k k' then (k', (N.succ v, true)) :: r else (k', (v, present)) :: sedit k r
+  end.
+
+Fixpoint sdelete (k : skey) (st : store) : store :=
+  match st with
+  | [] => []
+  | (k', (v, present)) :: r => if skey_eqb k k' then (k', (v, false)) :: r else (k', (v, present)) :: sdelete k r
   end.
 
 (* ---------- templates ---------- *)
@@ -131,19 +144,26 @@ Definition base_load (v : variant) (c : config) (st : store) (m : mode)
             t_globals := gl |}
   end.
 
+(* the `uptodate` callable of a template: the source is still there and still carries the version the
+   template was read from; a removed source is "not up to date" -- or, as found in the file system loader,
+   an OSError from stat() *)
+Definition uptodate_call (c : config) (st : store) (t : tmpl) : res bool :=
+  match slookup (t_src t) st with
+  | Some v => Ok (N.eqb v (t_ver t))
+  | None => if missing_raises c then Err EOSError else Ok false
+  end.
+
 (* BoundTemplate.is_up_to_date_async: no uptodate callable => True; else call it, await the result if it is
-   awaitable (the entry still carries the version the template was read from).  Entries are never deleted
-   in this model. *)
-Definition up_to_date (c : config) (st : store) (t : tmpl) : bool :=
-  negb (detects c) ||
-  match slookup (t_src t) st with Some v => N.eqb v (t_ver t) | None => false end.
+   awaitable *)
+Definition up_to_date (c : config) (st : store) (t : tmpl) : res bool :=
+  if negb (detects c) then Ok true else uptodate_call c st t.
 
 (* BoundTemplate.is_up_to_date: the synchronous copy cannot await: a result that is not a bool raises
-   LiquidError("expected a boolean from uptodate, found coroutine") *)
+   LiquidError("expected a boolean from uptodate, found coroutine") (the coroutine is created, not run) *)
 Definition up_to_date_sync (c : config) (st : store) (t : tmpl) : res bool :=
   if negb (detects c) then Ok true
   else if t_awaitable t then Err ELiquid
-  else Ok (up_to_date c st t).
+  else uptodate_call c st t.
 
 (* ---------- CachingLoaderMixin ---------- *)
 (* cache_key, verbatim *)
@@ -233,7 +253,10 @@ Definition check_cache_async (v : variant) (c : config) (s : state) (key : str) 
       match hget id (st_heap s) with
       | None => (s, RInternal)
       | Some cached =>
-          if auto_reload c && negb (up_to_date c (st_store s) cached) then
+          match (if auto_reload c then up_to_date c (st_store s) cached else Ok true) with
+          | Err e => ({| st_cache := cache1; st_heap := st_heap s; st_store := st_store s |}, RE e)
+          | OutOfFuel => (s, RInternal)
+          | Ok false =>
             match load_func tt with
             | Ok t =>
                 let id' := hfresh (st_heap s) in
@@ -241,11 +264,12 @@ Definition check_cache_async (v : variant) (c : config) (s : state) (key : str) 
             | Err e => ({| st_cache := cache1; st_heap := st_heap s; st_store := st_store s |}, RE e)
             | OutOfFuel => (s, RInternal)
             end
-          else
+          | Ok true =>
             let cached' := if v_globals_if v
                            then (if truthy_globals gl then with_globals cached gl else cached)
                            else with_globals cached gl in
             ({| st_cache := cache1; st_heap := (id, cached') :: st_heap s; st_store := st_store s |}, RT cached')
+          end
       end
   end.
 
@@ -272,6 +296,8 @@ Definition step (v : variant) (c : config) (s : state) (r : request) : state * r
   | Get g => match g_mode g with Sync => mixin_load v c s g | Async => mixin_load_async v c s g end
   | Edit name ns =>
       ({| st_cache := st_cache s; st_heap := st_heap s; st_store := sedit (name, ns) (st_store s) |}, RDone)
+  | Delete name ns =>
+      ({| st_cache := st_cache s; st_heap := st_heap s; st_store := sdelete (name, ns) (st_store s) |}, RDone)
   end.
 
 Fixpoint run (v : variant) (c : config) (s : state) (rs : list request) : list response :=
@@ -296,6 +322,7 @@ Fixpoint ref_run (c : config) (st : store) (rs : list request) : list response :
   | [] => []
   | Get g :: rs' => ref_get c st g :: ref_run c st rs'
   | Edit name ns :: rs' => RDone :: ref_run c (sedit (name, ns) st) rs'
+  | Delete name ns :: rs' => RDone :: ref_run c (sdelete (name, ns) st) rs'
   end.
 
 (* the same reference with the transcription variant left open (for the witnesses of the defects as found:
@@ -312,6 +339,7 @@ Fixpoint ref_run_v (v : variant) (c : config) (st : store) (rs : list request) :
   | [] => []
   | Get g :: rs' => ref_get_v v c st g :: ref_run_v v c st rs'
   | Edit name ns :: rs' => RDone :: ref_run_v v c (sedit (name, ns) st) rs'
+  | Delete name ns :: rs' => RDone :: ref_run_v v c (sdelete (name, ns) st) rs'
   end.
 
 (* ---------- the side condition of the theorems, executable ----------
@@ -321,7 +349,7 @@ Definition ckey (c : config) (g : get) : str := cache_key c (g_name g) (g_kw g) 
 Definition srckey (c : config) (g : get) : skey := source_key c (g_name g) (g_kw g) (g_ctx g).
 
 Fixpoint gets_of (rs : list request) : list get :=
-  match rs with [] => [] | Get g :: r => g :: gets_of r | Edit _ _ :: r => gets_of r end.
+  match rs with [] => [] | Get g :: r => g :: gets_of r | Edit _ _ :: r | Delete _ _ :: r => gets_of r end.
 
 Definition pair_ok (c : config) (g1 g2 : get) : bool :=
   negb (str_eqb (ckey c g1) (ckey c g2)) || skey_eqb (srckey c g1) (srckey c g2).
